@@ -46,7 +46,7 @@ func sameStats(a, b map[string]uint64) bool {
 		return false
 	}
 	for k, v := range a {
-		if b[k] != v {
+		if b[k] != v && !strings.Contains(k, "slots_refresh") { // (the refresh keeps failing, and counting, while a service has no host: not part of any equation)
 			return false
 		}
 	}
@@ -177,7 +177,7 @@ func c20(r *ev.Run) {
 		}
 		c20TCP(r, s, rnd, round)
 	}
-	r.Require("scenarios_judged", int64(rounds*10))
+	r.Require("scenarios_judged", int64(rounds*12))
 }
 
 func c20Redis(r *ev.Run, s *sutc.SUT, rnd *rand.Rand, round int) {
@@ -186,6 +186,7 @@ func c20Redis(r *ev.Run, s *sutc.SUT, rnd *rand.Rand, round int) {
 		run  func(svc *RedisSvc, cl *fakecluster.Cluster) map[string]interface{}
 		opts RedisOpts
 		stop bool // stop the service while connections are open
+		prep func(cl *fakecluster.Cluster) // changes to the cluster before the service is started
 		live bool // traffic keeps flowing until the stop closes the connections (no wait for idle nodes before the stop)
 	}
 	var liveWg sync.WaitGroup
@@ -244,6 +245,37 @@ func c20Redis(r *ev.Run, s *sutc.SUT, rnd *rand.Rand, round int) {
 				c.Close()
 			}
 			return nil
+		}},
+		{name: "redis-all-hosts-removed", run: func(svc *RedisSvc, cl *fakecluster.Cluster) map[string]interface{} {
+			closeAll(traffic(svc, 2, 20, "normal"))
+			// half of the slots have no owner (such keys go to any healthy host, which answers CLUSTERDOWN); then every endpoint is
+			// removed: requests for those keys are rejected before a backend is chosen ("no available host")
+			s.HostOp("host_remove", svc.Name, hostsOf(cl.Addrs()))
+			time.Sleep(time.Duration(20+rnd.Intn(60)) * time.Millisecond)
+			n := 1 + rnd.Intn(4)
+			closeAll(traffic(svc, n, 30, "normal"))
+			if os.Getenv("VERIF_DEBUG") != "" {
+				if c, err := svc.Dial(); err == nil {
+					for i := 0; i < 6; i++ {
+						v, err := c.DoS(3*time.Second, "GET", fmt.Sprintf("dbg%d", i))
+						fmt.Fprintf(os.Stderr, "after removal: GET dbg%d (slot %d) -> %s %v\n", i, fakecluster.Slot([]byte(fmt.Sprintf("dbg%d", i))), v.String(), err)
+					}
+					c.Close()
+				}
+			}
+			if rnd.Intn(2) == 0 {
+				// and added again
+				s.HostOp("host_add", svc.Name, hostsOf(cl.Addrs()))
+				time.Sleep(50 * time.Millisecond)
+				closeAll(traffic(svc, 2, 20, "normal"))
+			}
+			return map[string]interface{}{"connections_after_the_removal": n}
+		}, prep: func(cl *fakecluster.Cluster) {
+			cl.Lock()
+			for sl := rnd.Intn(2); sl < fakecluster.NumSlots; sl += 2 {
+				cl.SetOwnerLocked(sl, nil)
+			}
+			cl.Unlock()
 		}},
 		{name: "redis-redirected", run: func(svc *RedisSvc, cl *fakecluster.Cluster) map[string]interface{} {
 			conns := traffic(svc, 2, 10, "normal")
@@ -366,6 +398,34 @@ func c20Redis(r *ev.Run, s *sutc.SUT, rnd *rand.Rand, round int) {
 			traffic(svc, n, 10, "normal") // connections stay open
 			return map[string]interface{}{"open_connections": n}
 		}},
+		{name: "redis-stop-while-asking-waits-for-room", stop: true, run: func(svc *RedisSvc, cl *fakecluster.Cluster) map[string]interface{} {
+			// a backend with 1024 requests outstanding has stopped answering; a request is ASK-redirected to it (its writer waits
+			// for room to queue the ASKING); the service is stopped with both connections open
+			a, b := cl.Nodes[0], cl.Nodes[1]
+			akeys := keysFor(cl, a, 4, "c20ask")
+			bkeys := keysFor(cl, b, 1025, "c20fill")
+			cl.Lock()
+			for _, k := range akeys {
+				sl := fakecluster.Slot([]byte(k))
+				a.SetMigratingLocked(sl, b)
+				b.SetImportingLocked(sl, a)
+			}
+			cl.Unlock()
+			c1, err1 := svc.Dial()
+			c2, err2 := svc.Dial()
+			if err1 != nil || err2 != nil {
+				return nil
+			}
+			c1.DoS(3*time.Second, "GET", bkeys[0])
+			atomic.StoreInt32(&b.Silent, 1)
+			c1.C.Write(resp.CmdS(append([]string{"MGET"}, bkeys[1:1025]...)...))
+			time.Sleep(200 * time.Millisecond)
+			for _, k := range akeys[:1+rnd.Intn(3)] {
+				c2.C.Write(resp.CmdS("SET", k, "v"))
+			}
+			time.Sleep(200 * time.Millisecond)
+			return map[string]interface{}{"outstanding_at_the_silent_backend": 1024}
+		}},
 		{name: "redis-stop-under-traffic", stop: true, live: true, run: func(svc *RedisSvc, cl *fakecluster.Cluster) map[string]interface{} {
 			// pipelines keep flowing (part of them redirected: the table is stale) while the service is stopped under them
 			ms := cl.Masters()
@@ -434,6 +494,9 @@ func c20Redis(r *ev.Run, s *sutc.SUT, rnd *rand.Rand, round int) {
 		}
 		cl.AssignContiguous()
 		cl.LogArgs = false
+		if sc.prep != nil {
+			sc.prep(cl)
+		}
 		svc, err := startRedisSvc(s, cl, cl.Addrs(), sc.opts)
 		if err != nil {
 			cl.Close()
@@ -472,7 +535,7 @@ func c20Redis(r *ev.Run, s *sutc.SUT, rnd *rand.Rand, round int) {
 		// no node may have an open request: wait until the nodes stopped receiving and answered everything they will answer
 		for i, last := 0, int64(-1); i < 200 && !sc.live; i++ {
 			rc, an := cl.Received(), cl.Answered()
-			if rc == last && (an == rc || sc.name == "redis-backend-silent-then-closed") {
+			if rc == last && (an == rc || sc.name == "redis-backend-silent-then-closed" || sc.name == "redis-stop-while-asking-waits-for-room") {
 				break
 			}
 			last = rc
